@@ -191,6 +191,45 @@ func nhConcSetup(arg json.RawMessage) (func(), func(vrt.Result) (string, string,
 			return obs, "", ""
 		}
 		return body, judge, func() { vrt.UntrackMaps(); cleanup() }
+	case "forwardrule":
+		// PRoPHET: a retry of a waiting data bundle (sender selection over the connected relay r1) runs while the
+		// destination is encountered (own value 0 -> PInit) and r1's summary vector arrives (r1's value 0 -> 0.5).
+		// In no order of these events is r1's advertised value strictly greater than the node's own, so the bundle
+		// must not be offered to r1 in any schedule.
+		n.setOutcome("r1", true)
+		n.peerUp("r1")
+		data := gen.Spec{Dst: "dtn://dest/", Src: "dtn://node/app", Rpt: "dtn://node/app", PCRC: 2, Time: DtnNow(), Lifetime: 3600000, PayLen: 6, PaySeed: 1}.Build()
+		n.submit(data)
+		p := routing.VerifProphetOf(n.core.VerifAlgorithm())
+		vec := gen.Spec{Dst: nhNodeID, Src: "dtn://r1/", Rpt: "dtn://r1/", PCRC: 2, Time: DtnNow(), Lifetime: 60000, PayLen: 1, Flags: 4, PaySeed: 3, Seq: 9,
+			Ext: []gen.BSpec{{Kind: "prophet", S: []string{"dtn://dest/"}, F: []uint64{0x3fe0000000000000}}}}.Build()
+		before := n.nSends()
+		body := func() {
+			var wg vsync.WaitGroup
+			wg.Add(1)
+			vrt.Go("harness", func() {
+				defer wg.Done()
+				p.VerifEncounter(gen.MustEID("dtn://dest/"))
+				n.core.VerifHandle(cla.NewConvergenceReceivedBundle(n.peer("r1"), gen.MustEID(nhNodeID), &vec))
+			})
+			n.core.VerifRetryTick()
+			wg.Wait()
+		}
+		judge := func(res vrt.Result) (obs, key, desc string) {
+			offered := 0
+			for _, sd := range n.sendsSince(before) {
+				if sd.Peer == "r1" && idOfSend(sd) == data.ID().Scrub().String() {
+					offered++
+				}
+			}
+			own, _, _ := routing.VerifProphet(n.core.VerifAlgorithm())
+			obs = fmt.Sprintf("offered=%d own=%v", offered, own[gen.MustEID("dtn://dest/")])
+			if offered > 0 {
+				return obs, "offered-to-peer-without-greater-predictability", "the data bundle was offered to r1 although r1's advertised predictability for the destination (0 before its vector, 0.5 after) was at no time strictly greater than the node's own (0 before the encounter, 0.75 after): the two values compared were not read at one instant"
+			}
+			return obs, "", ""
+		}
+		return body, judge, cleanup
 	case "submit":
 		var bs []bpv7.Bundle
 		for i := 0; i < a.N; i++ {
